@@ -198,7 +198,8 @@ func (x *Exec) jsonMarshal(v Value, t types.Type) ([]*Term, Value) {
 		case u.Info()&types.IsString != 0:
 			sv := v.(*StrVal)
 			if sv.Opaque {
-				panic(unsupported("json model: marshalling an opaque string"))
+				// formatted message texts (error bodies): their content is not modelled
+				return bytesOfStr(`"(formatted text)"`), nil
 			}
 			if sv.IsConcrete() {
 				b, _ := json.Marshal(sv.Conc())
